@@ -45,9 +45,10 @@ import (
 //	range-shard-labels-not-in-key      the requests differ only in ShardInfo.By / ShardInfo.Labels
 //	labels-partial-response-not-in-key the requests differ only in PartialResponse
 //	labels-tenant-or-label-colon       a tenant id or label name contains ':'
-//	series-params-not-in-key           the requests differ only in PartialResponse / ReplicaLabels
+//	series-params-not-in-key           the requests differ only in PartialResponse / ReplicaLabels (repaired in 3dc503b62: must not occur)
+//	series-field-separator             a replica label of a series request contains ':' or ','
 //	series-tenant-colon                a tenant id contains ':'
-//	cross-type-tenant-colon            labels key == series key, a tenant id contains ':'
+//	cross-type-tenant-colon            labels key == series key, a tenant id contains ':' (impossible since 3dc503b62)
 //	*-key-collision                    anything else
 
 func init() {
@@ -303,8 +304,10 @@ func oracleSeriesPair(c *hlib.Ctx, a, b *c43Meta, ka, kb string) {
 	what := fmt.Sprintf("series requests (tenant %q partial %v replicas %q) and (tenant %q partial %v replicas %q) share the key %s",
 		a.tenant, x.PartialResponse, x.ReplicaLabels, b.tenant, y.PartialResponse, y.ReplicaLabels, hlib.UnHexS(ka))
 	switch {
-	case keyed:
+	case keyed && !badLabel(x.ReplicaLabels) && !badLabel(y.ReplicaLabels):
 		c43Viol(c, "series-params-not-in-key", what)
+	case badLabel(x.ReplicaLabels) || badLabel(y.ReplicaLabels):
+		c43Viol(c, "series-field-separator", what)
 	case a.tenant != b.tenant && strings.Contains(a.tenant+b.tenant, ":"):
 		c43Viol(c, "series-tenant-colon", what)
 	default:
@@ -408,7 +411,9 @@ func execC43(c *hlib.Ctx, tok []string) string {
 		default:
 			if ka == kb && len(ka) >= 8 {
 				what := fmt.Sprintf("a labels request of tenant %q and a series request of tenant %q share the key %s", a.tenant, b.tenant, hlib.UnHexS(ka))
-				if strings.Contains(a.tenant+b.tenant, ":") {
+				if sr := b.req.(*queryfrontend.ThanosSeriesRequest); badLabel(sr.ReplicaLabels) {
+					c43Viol(c, "series-field-separator", what)
+				} else if strings.Contains(a.tenant+b.tenant, ":") {
 					c43Viol(c, "cross-type-tenant-colon", what)
 				} else {
 					c43Viol(c, "cross-key-collision", what)
